@@ -31,6 +31,23 @@ MUTS = {
     "t13-stderr-not-drained": [("        while (xpfds[0].fd >= 0 || xpfds[1].fd >= 0) {", "        while (xpfds[0].fd >= 0) {")],
     "t14-kill-done-hosts": [("            case DSH_NEW:\n            case DSH_DONE:\n            case DSH_FAILED:\n            case DSH_CANCELED:\n                break;\n            }\n        }\n        sleep",
                              "            case DSH_NEW:\n                break;\n            case DSH_DONE:\n            case DSH_FAILED:\n            case DSH_CANCELED:\n                pthread_kill(t[(i + 1) % 2].thread, SIGALRM);\n                break;\n            }\n        }\n        sleep")],
+    # ---- the teardown phase
+    # no SIGTERM at the command timeout (EINTR branch): a command that would die of it lives on, the teardown waits
+    "t15-no-sigterm-eintr": [("                result = DSH_FAILED;\n                rcmd_signal (a->rcmd, SIGTERM);\n                break;\n            }\n\n            /* stdout ready",
+                              "                result = DSH_FAILED;\n                break;\n            }\n\n            /* stdout ready")],
+    # ... nor in the worker's own test at the top of the poll loop
+    "t16-no-sigterm-selfcheck": [("                err(\"%p: %S: command timeout\\n\", a->host);\n                result = DSH_FAILED;\n                rcmd_signal (a->rcmd, SIGTERM);",
+                                  "                err(\"%p: %S: command timeout\\n\", a->host);\n                result = DSH_FAILED;")],
+    # SIGTERM also after a normal end of the streams (a command that outlives its streams is killed)
+    "t17-sigterm-always": [("    rv = rcmd_destroy (a->rcmd);\n    if ((a->rc == 0) && (rv > 0))\n        a->rc = rv;\n\n    /* if a single qshell",
+                            "    rcmd_signal (a->rcmd, SIGTERM);\n    rv = rcmd_destroy (a->rcmd);\n    if ((a->rc == 0) && (rv > 0))\n        a->rc = rv;\n\n    /* if a single qshell")],
+    # the slot is released before the teardown (the epilogue moved above rcmd_destroy is C03's; here: no teardown
+    # at all for a host that was given up on)
+    "t18-no-destroy-after-timeout": [("    rv = rcmd_destroy (a->rcmd);\n    if ((a->rc == 0) && (rv > 0))\n        a->rc = rv;\n\n    /* if a single qshell",
+                                      "    rv = (result == DSH_FAILED && a->rcmd->fd != -1) ? 0 : rcmd_destroy (a->rcmd);\n    if ((a->rc == 0) && (rv > 0))\n        a->rc = rv;\n\n    /* if a single qshell")],
+    # the slot's state is updated only after the teardown: the watchdog's SIGALRM interrupts the wait (seeded C04-5)
+    "t19-state-after-destroy": [("    /* update status */\n    dsh_mutex_lock(&thd_mutex);\n    a->state = result;\n    a->finish = time(NULL);\n    dsh_mutex_unlock(&thd_mutex);\n\n    /* flush any pending output */\n    _flush_output (a->outbuf, (out_f) out, a);\n    _flush_output (a->errbuf, (out_f) err, a);\n\n    rv = rcmd_destroy (a->rcmd);\n    if ((a->rc == 0) && (rv > 0))\n        a->rc = rv;\n",
+                                 "    /* flush any pending output */\n    _flush_output (a->outbuf, (out_f) out, a);\n    _flush_output (a->errbuf, (out_f) err, a);\n\n    rv = rcmd_destroy (a->rcmd);\n    if ((a->rc == 0) && (rv > 0))\n        a->rc = rv;\n\n    dsh_mutex_lock(&thd_mutex);\n    a->state = result;\n    a->finish = time(NULL);\n    dsh_mutex_unlock(&thd_mutex);\n")],
 }
 ids = sys.argv[2:] or sorted(MUTS)
 for mid in ids:
